@@ -82,15 +82,18 @@ def extra(work, res, tier, proofs_ok):
         return
     factor = 10 if tier == "quick" else 4
     ops = []
-    for op in suspects[:16]:
+    for op in [o for o in suspects if o.split()[:2] == ["new", "pair"]][:16]:
         ws = op.split()
-        if ws[:2] != ["new", "pair"]:
-            continue
         n = str(int(ws[-1]) * factor)
         # the same pair, heavier; and the pair with every other mutator of the type as preparation steps
         # (a conflict may need a state only a sequence of calls produces, e.g. spare capacity)
         ops.append(" ".join(ws[:-1] + [n]))
         ops.append(" ".join(["new", "directed"] + ws[2:-1] + [n]))
+    for op in [o for o in suspects if o.split()[:2] == ["new", "fresh"]][:8]:
+        # the conflict may sit in lazy initialisation: more first uses of new instances, in every construction
+        # form of the flagged type (`new fresh T <form> <rounds>`)
+        ws = op.split()
+        ops.append(" ".join(ws[:-1] + [str(int(ws[-1]) * factor)]))
     if not ops:
         return
     dd = os.path.join(work.dir, "corr-races-directed")
@@ -131,7 +134,7 @@ MANIFEST = dict(
           "(c15_accessTable_disciplined); table + certificate give race freedom of every execution the table describes "
           "(c15_raceFree) and hand-off happens-before (c15_handoff_lock/atomic); (3) a pairwise method matrix (every pair "
           "of public methods of every type on one instance, 2-4 goroutines, payloads written before and read after the "
-          "hand-off), a mixed stress and a writer-sequences-against-readers case per type (scripted and random sequences of the mutating methods: delete-tail-then-append, fill-then-drain, ...) run under the Go race detector, one subprocess per case; when the table obligation breaks, a directed search stresses exactly the method pairs the driver names, with the other mutators as preparation steps; the Lean driver "
+          "hand-off), a mixed stress and a writer-sequences-against-readers case per type (scripted and random sequences of the mutating methods: delete-tail-then-append, fill-then-drain, ...) run under the Go race detector, one subprocess per case; every type is built in each of its supported construction forms (every constructor, the struct literal / zero value where the type supports it - a literal syncx.Cond{L: l} -, each configuration with its own code path: bounded/unbounded, capacity 1, the kind of Locker, the wrapped List), the rounds of each case going through the forms, and a `fresh` case per (type, form) lets the FIRST uses of hundreds of new, unprimed instances come from 2-4 goroutines (lazy initialisation); when the table obligation breaks, a directed search stresses exactly the method pairs the driver names, with the other mutators as preparation steps; the Lean driver "
           "accepts only `clean` and, in model mode, only pairs the regenerated table declares conflict-free."),
     note=COMMON_NOTE + (" Residue: the access-table analysis is syntactic/intraprocedural with inlined helpers and summaries for "
                         "owned objects of other packages (written iff the callee assigns through its receiver); objects of recursive "
